@@ -161,16 +161,28 @@ func C06(ctx *Ctx) {
 			a0, _ := r.Entry[roles.Address].(*absint.Int)
 			var appended *absint.Int
 			field := -1
+			condRec := ""
 			for _, ev := range r.Events {
 				if ev.Kind == "append" && len(ev.Args) >= 2 {
 					appended, _ = ev.Args[len(ev.Args)-1].(*absint.Int)
 				}
 				if ev.Kind == "map-update" && len(ev.Args) == 3 {
 					field = fieldOfKey(S, absint.ValKey(ev.Args[0]), "a")
+					// every label reference goes through Finalize: recording must not depend on whether the
+					// label is already known (a reference resolved on the spot escapes the range test)
+					for _, g := range ev.PathL {
+						if strings.Contains(g.Key, "lookup#") {
+							condRec = fmt.Sprintf("cell %s: the reference is recorded only when %s is %v", r.Cell, g.Key, g.Outcome)
+						}
+					}
 				}
 			}
 			if a0 == nil || appended == nil || field < 0 {
 				msg = fmt.Sprintf("cell %s: no reference recorded", r.Cell)
+				continue
+			}
+			if condRec != "" {
+				msg = condRec
 				continue
 			}
 			d := linDiff(r.IP, appended, a0)
